@@ -45,6 +45,10 @@ class Cols(list):
     """several columns at once (a vectorised expression over x[:, a:b:c] or the whole input): one value per column"""
 
 
+class Grid(list):
+    """a table of columns read at once (a[:, TABLE] with TABLE a literal 2-D index table): rows of Cols, addressed [:, row, k]"""
+
+
 OPS = {ast.Add: operator.add, ast.Sub: operator.sub, ast.Mult: operator.mul, ast.Div: operator.truediv, ast.Mod: operator.mod,
        ast.FloorDiv: operator.floordiv, ast.LShift: operator.lshift, ast.RShift: operator.rshift, ast.BitAnd: operator.and_,
        ast.BitOr: operator.or_, ast.BitXor: operator.xor}
@@ -94,6 +98,8 @@ class Interp:
                 return None
             if isinstance(tgt, ast.Subscript):
                 arr, col = self.colref(tgt)
+                if isinstance(col, tuple):
+                    raise Abort('store through a 2-D column table')
                 v = self.value(self.ev(st.value))
                 if isinstance(col, list):
                     if not isinstance(v, Cols):
@@ -208,6 +214,10 @@ class Interp:
                 raise Abort('slice bound not constant')
             return arr, list(range(*slice(*b).indices(self.ncols[arr])))
         c = self.ev(idx.elts[1])
+        if isinstance(c, list) and c and all(isinstance(x, int) for x in c):
+            return arr, list(c)                      # a[:, [c0, c1, ...]]
+        if isinstance(c, list) and c and all(isinstance(r, list) and r and all(isinstance(x, int) for x in r) for r in c):
+            return arr, ('grid', c)                  # a[:, TABLE] with a literal 2-D table of columns
         if not isinstance(c, int):
             raise Abort('column index not constant')
         return arr, c
@@ -281,6 +291,14 @@ class Interp:
                     return Bits([('src', b[1], col, i) for i in range(8)], 8)
                 if base.id in self.arrays:
                     arr, col = self.colref(e)
+                    if isinstance(col, tuple) and col[0] == 'grid':
+                        def rd(c_):
+                            if c_ not in self.arrays[arr]:
+                                if arr not in getattr(self, 'zeroed', set()):
+                                    raise Abort(f'read of unset column {arr}[:, {c_}]')
+                                return const(0, self.width[arr])
+                            return self.arrays[arr][c_]
+                        return Grid([Cols([rd(c_) for c_ in row]) for row in col[1]])
                     if isinstance(col, list):
                         out = Cols()
                         for c_ in col:
@@ -297,6 +315,19 @@ class Interp:
                         raise Abort(f'read of unset column {arr}[:, {col}]')
                     return self.arrays[arr][col]
             b = self.ev(base)
+            if isinstance(b, Grid):
+                el = e.slice.elts if isinstance(e.slice, ast.Tuple) else []
+                full = lambda x: isinstance(x, ast.Slice) and x.lower is None and x.upper is None and x.step is None    # noqa: E731
+                if len(el) == 3 and full(el[0]):
+                    k = None if full(el[2]) else self.ev(el[2])
+                    r_ = None if full(el[1]) else self.ev(el[1])
+                    if (k is None or isinstance(k, int)) and (r_ is None or isinstance(r_, int)) and not (k is None and r_ is None):
+                        if r_ is None:
+                            return Cols([row[k] for row in b])
+                        if k is None:
+                            return Cols(list(b[r_]))
+                        return b[r_][k]
+                raise Abort('subscript of a column table ' + norm(e)[:40])
             i = self.ev(e.slice)
             if isinstance(b, (list, tuple)) and isinstance(i, int):
                 return b[i]
